@@ -46,7 +46,7 @@ Lemma Forall_upd : forall A (P : A -> Prop) (f : A -> A) l n,
   Forall P l -> (forall x, nth_error l n = Some x -> P (f x)) -> Forall P (upd n f l).
 Proof.
   induction l as [|y r IH]; intros [|n] HF Hf; cbn; auto.
-  - inversion HF; subst. constructor; auto. apply Hf; reflexivity.
+  - inversion HF; subst. constructor; auto.
   - inversion HF; subst. constructor; auto.
 Qed.
 
@@ -75,13 +75,13 @@ Definition lsum (f : loop -> nat) (l : list loop) : nat := fold_right (fun x a =
 Lemma lsum_upd : forall f g l n x,
   nth_error l n = Some x -> (lsum f (upd n g l) + f x = lsum f l + f (g x))%nat.
 Proof.
-  induction l as [|y r IH]; intros [|n] x H; cbn in *; try discriminate.
+  unfold lsum. induction l as [|y r IH]; intros [|n] x H; cbn in *; try discriminate.
   - inversion H; subst. lia.
   - specialize (IH _ _ H). lia.
 Qed.
 
 Lemma lsum_map_eq : forall f g l, (forall x, f (g x) = f x) -> lsum f (map g l) = lsum f l.
-Proof. induction l; intros; cbn; auto. rewrite H, IHl; auto. Qed.
+Proof. unfold lsum. induction l as [|y r IH]; intros H; cbn; [reflexivity|]. rewrite H, IH; auto. Qed.
 
 Lemma measure_unfold : forall s,
   measure s = (r_measure s + lsum loop_measure (e_loops s) + loop_measure (e_ing s) + t_measure s)%nat.
@@ -151,3 +151,34 @@ Ltac step_cases H :=
   try (injection H as <- <-).
 
 Ltac splits := repeat match goal with |- _ /\ _ => split end.
+
+Lemma Forall_upd_nth : forall A (P : A -> Prop) (f : A -> A) l n,
+  Forall P l -> (forall x, nth_error l n = Some x -> P x -> P (f x)) -> Forall P (upd n f l).
+Proof.
+  induction l as [|y r IH]; intros [|n] HF Hf; cbn; auto.
+  - inversion HF; subst. constructor; auto.
+  - inversion HF; subst. constructor; auto.
+Qed.
+
+Lemma Forall_map_impl : forall A (P Q : A -> Prop) (f : A -> A) l,
+  Forall P l -> (forall x, P x -> Q (f x)) -> Forall Q (map f l).
+Proof.
+  intros A P Q f l HF H. apply Forall_map. eapply Forall_impl; [|exact HF]. exact H.
+Qed.
+
+Lemma Forall_all_nth : forall A (P : A -> Prop) l,
+  (forall i x, nth_error l i = Some x -> P x) -> Forall P l.
+Proof.
+  intros A P l H. apply Forall_forall. intros x Hx. apply In_nth_error in Hx. destruct Hx as [i Hi]. eauto.
+Qed.
+
+Lemma has_shut_app : forall q t, has_shut (q ++ [t]) = has_shut q || match t with TShut => true | _ => false end.
+Proof. intros. unfold has_shut. rewrite existsb_app. cbn. rewrite orb_false_r. reflexivity. Qed.
+
+Lemma has_shut_remove : forall q k t, nth_error q k = Some t ->
+  has_shut q = true -> (match t with TShut => False | _ => True end) -> has_shut (remove_nth k q) = true.
+Proof.
+  induction q as [|x r IH]; intros [|k] t Hn Hs Ht; cbn in *; try discriminate.
+  - inversion Hn; subst. destruct t; cbn in Hs; try contradiction; exact Hs.
+  - destruct x; cbn in *; auto; eapply IH; eauto.
+Qed.
